@@ -93,6 +93,29 @@ def handle (line : String) : String :=
           let es := (List.range n).map (fun t => fun x => sigma w x t)
           showRes (runOnline Generated.onlineDiscrete.handles Generated.onlineDiscrete.raises φ es)
       | _, _, _ => "bad-input"
+  | "ondgen" :: f :: n :: sigs =>
+      -- the online monitor run through the operation classes translated from the Python source
+      match parseFormula f, n.toNat?, parseEnv sigs with
+      | some φ, some n, some w =>
+          let es := (List.range n).map (fun t => fun x => sigma w x t)
+          let r : Except PyErr (List Float) := do
+            let t ← Py.initG φ
+            let (_, os) ← Py.runG φ t es
+            pure os
+          showRes r
+      | _, _, _ => "bad-input"
+  | "ondgenreset" :: f :: npre :: n :: sigs =>
+      match parseFormula f, npre.toNat?, n.toNat?, parseEnv sigs with
+      | some φ, some npre, some n, some w =>
+          let es := (List.range n).map (fun t => fun x => sigma w x t)
+          let r : Except PyErr (List Float) := do
+            let t0 ← Py.initG φ
+            let (t1, _) ← Py.runG φ t0 (es.take npre)
+            let t2 ← Py.resetG t1
+            let (_, os) ← Py.runG φ t2 (es.drop npre)
+            pure os
+          showRes r
+      | _, _, _, _ => "bad-input"
   | "counter" :: period :: punit :: tol :: unit :: start :: ts :: _ =>
       -- model of the sampling-violation counter: online fold, offline loop, specification
       match parseRat period, parseUnit punit, parseRat tol, parseUnit unit, start.toNat?, (words ts).mapM parseRat with
